@@ -395,8 +395,13 @@ fn judge(w: &World, _op: &Op, res: &OpResult, rng_fault_fired: bool, o: &mut Out
         Ret::Panic(p) if signer_failed => {
             return fail("c01-panic-on-signer-failure", format!("signer returned Err and the operation panicked: {p}"));
         }
-        Ret::Panic(p) if rng_fault_fired => {
-            return fail("c01-panic-on-rng-failure", format!("getrandom failed during signing and the operation panicked: {p}"));
+        Ret::Panic(p) if rng_fault_fired && p.contains("rcgen/src/") => {
+            return fail("c01-panic-on-rng-failure", format!("getrandom failed during signing and rcgen panicked: {p}"));
+        }
+        Ret::Panic(_) if rng_fault_fired => {
+            // the failed call was consumed by somebody else (e.g. std seeding a hash map inside a
+            // parser): not the signer failing, and not rcgen's panic
+            o.count("panic_under_rng_fault_outside_rcgen", 1);
         }
         Ret::Panic(_) => {
             // a parameter-induced panic without any fault is C10's subject, not this property's
